@@ -116,12 +116,16 @@ class Tr:
         self.fn, self.cls = find_function(self.tree, unit.qualname)
         self.consts = class_consts(self.tree, unit.consts_from) if unit.consts_from else {}
         self.fresh = 0
+        self.hoisted = []   # (name, extra binders, coq body)
+        self.loop_no = 0
         self.while_no = 0
         self.narrow = {}  # option-typed param -> ('none',) | ('some', coqname)
         self.loopvars = {}  # python name -> (coq expr, type) bound by for_each
         self.locals = self.collect_locals()
         self.uses_out = any(True for _ in self.u.effects)
         self.uses_pick = False
+        self.in_hoist_ctx = 0
+        self.PARARGS = "@PARARGS@"
 
     # ------------------------------------------------------------------ helpers
     def seg(self, node):
@@ -273,9 +277,12 @@ class Tr:
                     pre += lp + rp
                     if lt != "int" or rt != "int":
                         fail(e, "comparison on non-int")
-                    sym = {ast.Eq: "=?", ast.Lt: "<?", ast.LtE: "<=?", ast.Gt: ">?", ast.GtE: ">=?"}
+                    sym = {ast.Eq: "=?", ast.Lt: "<?", ast.LtE: "<=?"}
+                    flip = {ast.Gt: "<?", ast.GtE: "<=?"}   # a > b  ==  b < a (lia-friendly)
                     if type(op) in sym:
                         parts.append(f"({l} {sym[type(op)]} {r})")
+                    elif type(op) in flip:
+                        parts.append(f"({r} {flip[type(op)]} {l})")
                     elif isinstance(op, ast.NotEq):
                         parts.append(f"(negb ({l} =? {r}))")
                     else:
@@ -508,8 +515,10 @@ class Tr:
                 s1 = self.new("s")
                 s2 = self.new("s")
                 body = self.block(st.body, s2)
-                loop = (f"(for_range (Z.to_nat {n}) 0 (fun {iv} {s1} => "
-                        f"let {s2} := set_{st.target.id} {s1} {iv} in {body}) {s})")
+                fn_ = self.hoist("body", f"({iv} : Z) ({s1} : st)",
+                                 f"let {s2} := set_{st.target.id} {s1} {iv} in {body}",
+                                 f"(fun {iv} {s1} => let {s2} := set_{st.target.id} {s1} {iv} in {body})")
+                loop = f"(for_range (Z.to_nat {n}) 0 {fn_} {s})"
             elif itsrc in self.u.foreach:
                 lst, fields = self.u.foreach[itsrc]
                 names = [t.id for t in st.target.elts] if isinstance(st.target, ast.Tuple) else None
@@ -541,7 +550,8 @@ class Tr:
             if rest:
                 s3 = self.new("s")
                 restc = self.block(rest, s3)
-                loop = f"(seq_flow {loop} (fun {s3} => {restc}))"
+                kfn = self.hoist("after", f"({s3} : st)", restc, f"(fun {s3} => {restc})")
+                loop = f"(seq_flow {loop} {kfn})"
             return self.wrap(np_, s, loop)
         if isinstance(st, ast.While):
             if st.orelse:
@@ -556,14 +566,27 @@ class Tr:
                 fail(st, "guarded while condition")
             s2 = self.new("s")
             body = self.block(st.body, s2)
-            loop = (f"(while_fuel ({self.u.fuel[k]}) (fun {s1} => {self.truth(c, t, st.test)}) "
-                    f"(fun {s2} => {body}) {s})")
+            cfn = self.hoist("cond", f"({s1} : st)", self.truth(c, t, st.test),
+                             f"(fun {s1} => {self.truth(c, t, st.test)})", ty="bool")
+            bfn = self.hoist("body", f"({s2} : st)", body, f"(fun {s2} => {body})")
+            loop = f"(while_fuel ({self.u.fuel[k]}) {cfn} {bfn} {s})"
             if rest:
                 s3 = self.new("s")
                 restc = self.block(rest, s3)
-                loop = f"(seq_flow {loop} (fun {s3} => {restc}))"
+                kfn = self.hoist("after", f"({s3} : st)", restc, f"(fun {s3} => {restc})")
+                loop = f"(seq_flow {loop} {kfn})"
             return loop
         fail(st, "statement")
+
+    def hoist(self, kind, binders, body, inline, ty=None):
+        """Emit a loop body / continuation as a named top-level definition when it does not
+        depend on binders of an enclosing construct; otherwise keep it inline."""
+        if self.narrow or self.loopvars or self.loopvars_rec() or self.in_hoist_ctx:
+            return inline
+        self.loop_no += 1
+        name = f"L{self.loop_no}_{kind}"
+        self.hoisted.append((name, binders, body, ty))
+        return f"({name} {self.PARARGS})"
 
     # ------------------------------------------------------------------ whole unit
     def emit(self):
@@ -632,6 +655,13 @@ class Tr:
                 inits.append("0")
         L.append(f"Definition init {parstr} : st := mk {' '.join(inits)}.")
         argstr = " ".join(n for n, _ in pars)
+        for (hn, hb, hbody, hty) in self.hoisted:
+            hty = hty or f"st * flow {RET[u.ret]}"
+            L.append(f"Definition {hn} {parstr} {hb} : {hty} :=")
+            L.append(textwrap.fill(hbody.replace("@PARARGS@", argstr), 100, initial_indent="  ",
+                                   subsequent_indent="  ", break_long_words=False,
+                                   break_on_hyphens=False) + ".")
+        body = body.replace("@PARARGS@", argstr)
         L.append(f"Definition body {parstr} (s0 : st) : st * flow {RET[u.ret]} :=")
         L.append(textwrap.fill(body, 100, initial_indent="  ", subsequent_indent="  ",
                                break_long_words=False, break_on_hyphens=False) + ".")
